@@ -45,6 +45,7 @@ struct Tape {
     size_t pos = 0;
     bool replay = false;
     std::vector<uint32_t> out;
+    uint32_t* mirror = nullptr; size_t mirror_cap = 0;   // shared-memory copy of `out` (mirror[0] = count) so that the tape of a run that dies is not lost
     void start_generate(uint64_t seed, uint64_t prop, uint64_t index) {
         rng.seed(seed, prop, index); in.clear(); pos = 0; replay = false; out.clear();
     }
@@ -55,6 +56,7 @@ struct Tape {
         pos++;
         if (n <= 1) v = 0; else v %= n;
         out.push_back(v);
+        if (mirror && mirror[0] + 1 < mirror_cap) { mirror[1 + mirror[0]] = v; mirror[0]++; }
         return v;
     }
 };
@@ -130,6 +132,8 @@ struct Property {
 void register_property(const Property& p);
 const Property* find_property(const std::string& id);
 
+extern uint64_t* g_heartbeat;      // points into shared memory inside campaign workers
+static inline void heartbeat() { if (g_heartbeat) ++*g_heartbeat; }
 uint64_t fnv(const void* p, size_t n, uint64_t h = 1469598103934665603ull);
 std::string hex(const void* p, size_t n, size_t maxn = 64);
 
